@@ -113,8 +113,13 @@ def merge_helper_kind(node):
                and isinstance(n.value, ast.Name) and n.value.id == V]
     if not assigns:
         return None
-    rec = [n for n in ast.walk(lp) if isinstance(n, ast.Call) and isinstance(n.func, ast.Name) and n.func.id == node.name and len(n.args) == 2
-           and is_entry(n.args[0]) and isinstance(n.args[1], ast.Name) and n.args[1].id == V]
+    def call_args(n):
+        # (target argument, update argument) of a self-call, positional or by keyword
+        a_ = list(n.args) + [None, None]
+        kw_ = {k.arg: k.value for k in n.keywords}
+        return (a_[0] if a_[0] is not None else kw_.get(T)), (a_[1] if len(n.args) >= 2 else kw_.get(U))
+    rec = [n for n in ast.walk(lp) if isinstance(n, ast.Call) and isinstance(n.func, ast.Name) and n.func.id == node.name
+           and call_args(n)[0] is not None and is_entry(call_args(n)[0]) and isinstance(call_args(n)[1], ast.Name) and call_args(n)[1].id == V]
     if not rec:
         return "merge"
 
